@@ -304,8 +304,14 @@ def fixed_points(spec_rules: list[dict]) -> tuple[list[Violation], dict]:
 			violations.append(Violation(f'CompiledEqualsCheckedIn:{module}:rules', 'CompiledEqualsCheckedIn', f'the rules compiled from {lark} differ from {module}()', {'module': module}))
 		# every shipped rule set survives print-and-parse
 		printed = factory().pretty()
-		back = rules_struct(eng['Rules'].from_ast(eng['meta'].parse(printed + '\n', 'entry').simplify()))
 		orig = rules_struct(factory())
+		try:
+			back = rules_struct(eng['Rules'].from_ast(eng['meta'].parse(printed + '\n', 'entry').simplify()))
+		except Exception as e:
+			# code under test: a printout that the meta-parser cannot read back is the violation itself
+			violations.append(Violation(f'RoundTrip:{module}', 'RoundTrip', f'the printout of {module}() cannot be parsed back: {type(e).__name__}: {str(e)[:160]}', {'module': module}))
+			cov[f'{module}_rules'] = len(orig)
+			continue
 		bad = [k for (k, v), (k2, v2) in itertools.zip_longest(back, orig, fillvalue=(None, None)) if k != k2 or v != v2]
 		if bad:
 			violations.append(Violation(f'RoundTrip:{module}', 'RoundTrip', f'printing {module}() and parsing the printout changes the rules {bad[:5]}', {'rules': bad}))
